@@ -45,13 +45,13 @@ def oracle(fl, raw, k, raws, metas, key):
     out = []
     ids_seen = set()
     for rel in changed:
-        out.append({"path": rel, "why": "destination entry changed by the re-run", "klass": "big-update-rerun" if rel in bigpaths else None})
+        out.append({"path": rel, "why": "destination entry changed by the re-run", "klass": None})
         ids_seen.add(rel)
     nonskip = [f for f in fails]
     # every non-skip event must be explained by a changed big path; otherwise it is its own failure
     if len(nonskip) > len([r for r in changed if r in bigpaths]):
         for f in nonskip[:1]:
-            out.append(dict(f, klass=None if not bigpaths or len(nonskip) > len(bigpaths) else "big-update-rerun"))
+            out.append(dict(f, klass=None))
     elif nonskip and not changed:
         out += nonskip
     return out
